@@ -48,7 +48,8 @@ LexExtra == <<<<39, 97>> \o NL \o <<98, 39, 32, 43, 32, 120>>, <<96, 97>> \o NL 
               <<120, 46, 121, 63, 122, 58, 119>>, <<120, 46, 94, 46, 121>>, <<120, 63, 63, 121>>, <<120, 63, 46, 121>>,
               <<120, 32, 105, 110, 32, 121, 32, 105, 110, 116, 32, 105, 110, 120>>, <<110, 111, 116, 120, 32, 110, 111, 116, 32, 120>>,
               <<120, 46, 710, 121>>, <<120, 63, 710, 121>>, <<710, 120>>, <<120, 60, 61, 62, 121, 60, 61, 121, 60, 62, 121>>>>
-LexUniverse == Concat([n \in 1..P_SIZE |-> AtomsN(n)]) \o LexExtra
+\* (every universe is guarded by its mode: TLC evaluates constant definitions eagerly, used or not)
+LexUniverse == IF P_MODE = "lex" THEN Concat([n \in 1..P_SIZE |-> AtomsN(n)]) \o LexExtra ELSE <<>>
 
 (* ---- "toks": token alphabets (lexemes), joined by single spaces ---- *)
 TokAlpha == <<<<120>>, <<49>>, N_plus, N_star, N_minus, N_lt, N_caret, N_bang, N_oror, N_lpar, N_rpar, N_lbr, N_rbr,
@@ -56,7 +57,7 @@ TokAlpha == <<<<120>>, <<49>>, N_plus, N_star, N_minus, N_lt, N_caret, N_bang, N
 RECURSIVE TokStrN(_)
 TokStrN(n) == IF n = 1 THEN [i \in 1..Len(TokAlpha) |-> TokAlpha[i]]
               ELSE Prod2(TokStrN(n - 1), TokAlpha, LAMBDA p, a : p \o <<32>> \o a)
-TokUniverse == Concat([n \in 1..P_SIZE |-> TokStrN(n)])
+TokUniverse == IF P_MODE = "toks" THEN Concat([n \in 1..P_SIZE |-> TokStrN(n)]) ELSE <<>>
 
 (* ---- "prec": operator-table family and two-operator shapes ---- *)
 BPs == <<4, 5, 6, 3, 22>>          \* half units: 2, 2.5, 3, 1.5, 11 -- interleaving with ?: (2), each other, and call (12)
@@ -122,12 +123,23 @@ SugarShapes ==
        <<45, 120, 46, 102, 40, 41, 32, 43, 32, 33, 121, 91, 48, 93>>,                      \* -x.f() + !y[0]
        <<120, 46, 102, 46, 103, 40, 49, 41, 46, 104>>,                                     \* x.f.g(1).h
        <<34, 72, 34, 46, 108, 101, 110, 40, 41>>, <<97, 46, 98, 46, 99, 40, 49, 44, 32, 50, 41>>>>     \* "H".len()  a.b.c(1, 2)
-SugarUniverse == Concat([n \in 1..P_SIZE |-> SugarN(n)]) \o SugarShapes
+SugarUniverse == IF P_MODE = "sugar" THEN Concat([n \in 1..P_SIZE |-> SugarN(n)]) \o SugarShapes ELSE <<>>
+
+\* bracket nests (C12): nested map keys, groups, objects, lists; depth 1..P_SIZE
+RECURSIVE RepS(_, _)
+RepS(x, n) == IF n = 0 THEN <<>> ELSE x \o RepS(x, n - 1)
+Nests(n) == <<RepS(N_lbr, n) \o <<49>> \o RepS(N_rbr \o N_colon \o <<49>>, n - 1) \o N_rbr,       \* [[[1]:1]:1]
+              RepS(N_lpar, n) \o <<49>> \o RepS(N_rpar, n), RepS(N_lbr, n) \o <<49>> \o RepS(N_rbr, n),
+              RepS(N_lbrace \o <<97>> \o N_colon, n) \o <<49>> \o RepS(N_rbrace, n),
+              RepS(N_lbr, n) \o RepS(N_rbr, n - 1), RepS(N_lbr \o <<49>> \o N_colon, n) \o <<49>> \o RepS(N_rbr, n),     \* [1:[1:[1:1]]]
+              RepS(N_lbr, n) \o <<49>> \o N_colon>>
+NestUniverse == IF P_MODE = "nests" THEN Concat([n \in 1..P_SIZE |-> Nests(n)]) ELSE <<>>
 
 \* a universe element: [ops |-> table (sequence of Op), opsid |-> id or "", src]
 Universe ==
   CASE P_MODE = "lex" -> Prod2(LexSets, LexUniverse, LAMBDA id, s : [opsid |-> id, ops |-> OpSet(id), src |-> s])
     [] P_MODE = "toks" -> Prod2(<<"builtin", "custom">>, TokUniverse, LAMBDA id, s : [opsid |-> id, ops |-> OpSet(id), src |-> s])
+    [] P_MODE = "nests" -> Map1S(NestUniverse, LAMBDA s : [opsid |-> "builtin", ops |-> BuiltinOps, src |-> s])
     [] P_MODE = "sugar" -> Map1S(SugarUniverse, LAMBDA s : [opsid |-> "builtin", ops |-> BuiltinOps, src |-> s])
     [] P_MODE = "prec" -> Prod2(PrecTables, Shapes2, LAMBDA t, s : [opsid |-> "", ops |-> t, src |-> s])
                             \o Prod2(UnTables, ShapesU, LAMBDA t, s : [opsid |-> "", ops |-> t, src |-> s])
